@@ -424,12 +424,12 @@ def fdFilestatSetTimes (st : St) : List Nat → St × Res
       match e with
       | some e => (st', err e)
       | none =>
-        -- `f.File.Utimens` is ENOSYS for the stdio files, so `f.FS.Utimens(f.Name, …)` is tried, and
-        -- `f.FS` is nil for stdio entries: nil dereference in the host function, recovered by the
-        -- engine as a trap (deterministic; reported to C15, see docs/C18.md)
+        -- `f.File.Utimens` is ENOSYS for the stdio files; the path-based fallback is skipped for
+        -- entries without a file system (fix a31b0d4 of finding C15/F24: it used to dereference
+        -- the nil `f.FS` of stdio entries), so the errno stays ENOSYS
         match k with
         | .dir _ => (st', err ErrnoNoent)
-        | _ => (st', { trap := true })
+        | _ => (st', err ErrnoNosys)
   | _ => (st, badCall)
 
 def pathFilestatSetTimes (st : St) : List Nat → St × Res
